@@ -108,6 +108,14 @@ def run_case(acc: Acc, engine, block, out, n, degrees, status, mname, params) ->
     if got_contrib != want_contrib:
         acc.violate("contributions", sig, case, want_contrib, got_contrib, f"{mname}{params} degrees={degrees} "
                     f"status={status}: fuzzy output {got_contrib}, expected {want_contrib}")
+    out.fuzzy.clear()
+    block.activate()
+    acc.transitions += 1
+    again = ([float(r.activation_degree) for r in block.rules], [bool(r.triggered) for r in block.rules],
+             sorted((a.term.name, round(float(a.degree), 12)) for a in out.fuzzy.terms))
+    if again != (got_deg, got_trig, got_contrib):
+        acc.violate("not-repeatable", sig, case, [got_deg, got_trig, got_contrib], list(again),
+                    f"{mname}{params} degrees={degrees}: a second activation of the same block gives a different result")
     if any(t and not (d > 0.0) for t, d in zip(got_trig, got_deg)):
         acc.violate("triggered-implies-positive", sig, case, None, [got_trig, got_deg], "triggered with degree <= 0")
     acc.cls(f"selected_{min(len(contrib), 3)}{'+' if len(contrib) > 3 else ''}")
